@@ -774,6 +774,44 @@ fn policyset_merge(req: &J) -> J {
     }
 }
 
+/// a template linked in a policy set, the linked policy exported to JSON and read back: equal to the linked policy?  {template} -> {equal, linked, back}
+fn link_json(req: &J) -> J {
+    use cedar_policy::{EntityUid, PolicyId, SlotId, Template};
+    use std::collections::HashMap;
+    let t = match Template::parse(Some(PolicyId::new("t")), req["template"].as_str().unwrap_or("")) {
+        Ok(t) => t,
+        Err(e) => return json!({"parse_error": e.to_string()}),
+    };
+    let mut vals = HashMap::new();
+    for s in t.slots() {
+        if *s == SlotId::principal() {
+            vals.insert(SlotId::principal(), EntityUid::from_str(r#"User::"alice""#).unwrap());
+        } else {
+            vals.insert(SlotId::resource(), EntityUid::from_str(r#"Doc::"d""#).unwrap());
+        }
+    }
+    let mut ps = PolicySet::new();
+    if let Err(e) = ps.add_template(t) {
+        return json!({"input_error": e.to_string()});
+    }
+    if let Err(e) = ps.link(PolicyId::new("t"), PolicyId::new("l"), vals) {
+        return json!({"input_error": e.to_string()});
+    }
+    let linked = match ps.policy(&PolicyId::new("l")) {
+        Some(p) => p.clone(),
+        None => return json!({"input_error": "no linked policy"}),
+    };
+    let j = match linked.to_json() {
+        Ok(j) => j,
+        Err(e) => return json!({"to_json_error": e.to_string()}),
+    };
+    // the exported JSON is a static policy: compare its scope and condition text with the linked policy's own rendering
+    match cedar_policy::Policy::from_json(Some(PolicyId::new("l")), j.clone()) {
+        Ok(q) => json!({"equal": q.to_string() == linked.to_string(), "linked": linked.to_string(), "back": q.to_string(), "json": j}),
+        Err(e) => json!({"equal": false, "linked": linked.to_string(), "back": format!("error: {e}")}),
+    }
+}
+
 fn handle(req: &J) -> J {
     match req["op"].as_str().unwrap_or("") {
         "eval" => eval(req),
@@ -790,6 +828,7 @@ fn handle(req: &J) -> J {
         "batched" => batched(req),
         "est_roundtrip" => est_roundtrip(req),
         "policyset_merge" => policyset_merge(req),
+        "link_json" => link_json(req),
         other => json!({"unknown_op": other}),
     }
 }
